@@ -253,7 +253,9 @@ export function iso(_isographLiteralText: string):
                     format!(
                         "    case '{}':
       return entrypoint_{};\n",
-                        entrypoint_declaration_info.iso_literal_text,
+                        escape_for_js_string_literal(
+                            &entrypoint_declaration_info.iso_literal_text.to_string()
+                        ),
                         field
                             .entity_name_and_selectable_name()
                             .underscore_separated()
@@ -464,4 +466,20 @@ fn sort_field_name(field_1: SelectableName, field_2: SelectableName) -> Ordering
     } else {
         field_1.cmp(field_2)
     }
+}
+
+/// The iso literal text may contain line breaks, apostrophes and backslashes,
+/// which cannot appear unescaped in a single-quoted string literal.
+fn escape_for_js_string_literal(text: &str) -> String {
+    let mut escaped = String::with_capacity(text.len());
+    for c in text.chars() {
+        match c {
+            '\\' => escaped.push_str("\\\\"),
+            '\'' => escaped.push_str("\\'"),
+            '\n' => escaped.push_str("\\n"),
+            '\r' => escaped.push_str("\\r"),
+            _ => escaped.push(c),
+        }
+    }
+    escaped
 }
